@@ -844,14 +844,21 @@ static WB_BOOL grow_buff(WBXMLBuffer *buffer, WB_ULONG size)
     size++; 
 
     if ((buffer->len + size) > buffer->malloced) {
+        WB_ULONG  new_malloced = 0;
+        WB_UTINY *new_data     = NULL;
+
         if ((buffer->malloced * 2) < (buffer->len + size))
-            buffer->malloced = buffer->len + size;
+            new_malloced = buffer->len + size;
         else
-            buffer->malloced *= 2;
-            
-        buffer->data = wbxml_realloc(buffer->data, buffer->malloced);
-        if (buffer->data == NULL)
+            new_malloced = buffer->malloced * 2;
+
+        /* Keep the old block (and its size) when there is not enough memory */
+        new_data = wbxml_realloc(buffer->data, new_malloced);
+        if (new_data == NULL)
             return FALSE;
+
+        buffer->data     = new_data;
+        buffer->malloced = new_malloced;
     }
 
     return TRUE;
